@@ -9,7 +9,7 @@ META = {
     text="Decides, for all inputs at once, named clauses of C01 from the source: every timestamp field of the SRT/WebVTT/DFXP/SAMI/MicroDVD readers is scaled by the coefficient the format's grammar requires (symbolic evaluation of the loop-free conversion functions into rational polynomial forms compared with an oracle written from the format specs), fraction fields are padded on the right and cut to their width (and, digit by digit, every digit of a 1..9-digit DFXP second fraction has its decimal weight: symbolic digit strings), every grammar-conformant stamp is in the language of the repository's regexes (shortest counter-example otherwise), group roles match, no truncation of a twice-rounded float reaches Caption.start/end, readers only append in document order, Caption refuses non-numeric times. It does not decide the behaviour as a whole: cue segmentation by str.splitlines/BeautifulSoup and the scanning loops are not decided.",
     note="Trusted: CPython ast/re._parser; int/float/Fraction(str) semantics; IEEE-754 correctly rounded operations; the oracle tables in sa/spec/time_grammar.py. Rule instances are confirmed by hand on the pinned tree (floor: 10 conversion sites)."),
  "C05": dict(technique="constant folding of module tables (no import) compared with an independent CEA-608 generator; dispatch-table extraction",
-    text="Decides the table clauses of C05 only: CHARACTERS/SPECIAL_CHARS/EXTENDED_CHARS, all 480 preamble address codes, tab offsets and the control-code dispatch of SCCReader._translate_command agree with a generator written from the CEA-608 bit layout; the word classes the dispatcher tests in order are disjoint; the row/column -> safe-area map has the right coefficients; small pure predicates (style classification, back-space condition, tab-offset window) are folded over their whole finite domain; the duplicate filter (_handle_double_command) is folded as a finite-state transducer from every reachable state on a representative 12-word alphabet and checked against the doubling obligations (a doubled control/special code counts once, twice-doubled counts twice, address+tab-offset in all three transmission forms, text never a duplicate, only the immediately preceding word counts) - one obligation fails on the pinned tree (known finding: tab offset after a DOUBLED address code is dropped). The rest of the decoder's behaviour over command sequences (row adjacency, back-space, italic extent) is NOT decided by this family.",
+    text="Decides the table clauses of C05 only: CHARACTERS/SPECIAL_CHARS/EXTENDED_CHARS, all 480 preamble address codes, tab offsets and the control-code dispatch of SCCReader._translate_command agree with a generator written from the CEA-608 bit layout; the word classes the dispatcher tests in order are disjoint; the row/column -> safe-area map has the right coefficients; small pure predicates (style classification, back-space condition, tab-offset window) are folded over their whole finite domain; the duplicate filter (_handle_double_command) is folded as a finite-state transducer from every reachable state on a representative 12-word alphabet and checked against the doubling obligations (a doubled control/special code counts once, twice-doubled counts twice, address+tab-offset in all three transmission forms, text never a duplicate, only the immediately preceding word counts) - one obligation fails on the pinned tree (known finding: tab offset after a DOUBLED address code is dropped). The pop-on buffer object (InstructionNodeCreator + position tracker + italics pipeline) is constructed and folded inside the checker's evaluator on every caption of one or two rows over {plain/italic preamble, column 0/4, tab offset, mid-row italics on/off} (three rows in the thorough tier) and read back against the CEA-608 meaning: consecutive rows are lines of one chunk, other rows start a repositioned chunk at (row, column + offset), every character appears once on its line, a character is italic exactly when the last attribute code before it was italic; the italics pipeline alone is folded on every node sequence up to length 4 (6 thorough). Beyond those scopes (longer captions, back-space and extended-character replacement sequences, re-addressed rows) the decoder's behaviour is NOT decided.",
     note="Trusted: the transcription of CEA-608-E in sa/spec/cea608.py (both readings accepted where published tables differ); constant folding implements Python semantics for the whitelisted pure subset."),
  "C10": dict(technique="def-use / effect analysis on the AST: mutable defaults, definite re-initialisation of per-call state, set-order flows, global mutation",
     text="Decides the structural necessary conditions of C10: no mutable default argument escapes (R-DEFAULTS), every piece of reader state that is written or mutated during read() is definitely re-created before its first use in that call (R-STATE), no module- or class-level mutable object is mutated from read-reachable code (R-GLOBALMUT), no hash-ordered set is iterated into a result (R-HASHORDER), no nondeterministic source is called (R-NONDET). Equality of two result sets as such is not decided.",
@@ -68,7 +68,7 @@ META.update({
     text="Decides, for the nine discovered writers: no mutation site is reachable whose receiver may be reachable from the caption-set argument (deepcopy moves the name to a COPY region; copy hooks on model classes are forbidden), no writer attribute written or mutated during write() is read in its left-over value, no module-/class-level object is mutated, no hash-ordered set is iterated into the output, no clock/random/environment call; geometry methods never store through self/parameters/aliases. Byte identity across processes as such is not decided.",
     note="Trusted: deepcopy semantics; bs4/lxml serialise deterministically; calls the analysis cannot resolve are havocked and counted (0 on the pinned tree)."),
  "C11": dict(technique="table folds of the style vocabularies, flag-automaton product with the flat-span grammar, ordering rules on the italics pipeline",
-    text="Decides: italics/bold/underline map to the same CSS property / TTML attribute / WebVTT tag on the writer and reader side (folded over the finite key set); the extracted span automata of DFXPWriter, LegacyDFXPWriter and SAMIWriter (with its helper inlined) stay balanced on every word of the flat-span grammar (start end)*; WebVTT closes tags in reverse order at node and cue level; SCC nodes leave a buffer only through _format_italics, every italics-opening pass precedes the closing pass and the repositioning pass keeps its tracker consistent; style resolution mutates no shared object and translates every inline declaration. Not decided: that the same characters are styled after a trip.",
+    text="Decides: italics/bold/underline map to the same CSS property / TTML attribute / WebVTT tag on the writer and reader side (folded over the finite key set); the extracted span automata of DFXPWriter, LegacyDFXPWriter and SAMIWriter (with its helper inlined) stay balanced on every word of the flat-span grammar (start end)*; WebVTT closes tags in reverse order at node level (cue grouping folded on every combination of the three styles) and cue level; SCC nodes leave a buffer only through _format_italics, and that pipeline - folded from source on every node sequence up to length 4 (6 in the thorough tier) over {italics on, italics off, text, break, reposition} - yields balanced spans, no repositioning inside a span, all texts in order, each italic exactly when it was sent while italics were on; style resolution mutates no shared object and translates every inline declaration. Not decided: that the same characters are styled after a trip.",
     note="Trusted: -"),
  "C14": dict(technique="set-order effect analysis + def-use identity of language labels + structural fallback/neighbour rules",
     text="Decides: no reader or writer iterates a hash-ordered set of languages; inside every language loop the caption lookup and the label use the loop's own language variable; a DFXP div without xml:lang falls back to a loop-invariant value computed from tt/xml:lang then DEFAULT_LANGUAGE_CODE; force selects only a present language; WebVTT's lang option is replaced only when None; a SAMI sync for a secondary language is inserted after the last earlier / before the first later sync. SAMI sync ordering for arbitrary interleavings is not decided.",
